@@ -30,6 +30,8 @@ CHILD = {
     'awaitv': [['AWAIT', 'c1_vict'], ['D', 1]],
     'victf': [['D', 1], ['RAISE', 'KeyError', 'vf']],
     'awaitf': [['AWAIT', 'c1_victf'], ['D', 1]],
+    # (awaits the failed sibling only after it has failed, in that very time step: the await is still a break point)
+    'awaitf1': [['D', 1], ['AWAIT', 'c1_victf'], ['D', 1]],
     'tick': [['D', 1], ['D', 1], ['D', 1], ['D', 1]],
     'forever': [['ETERNITY']],
     # a child whose cleanup fails when it is closed: a failure that happens during the teardown of the scope
@@ -48,6 +50,7 @@ BODIES = {
     'raise0': [['RAISE', 'RuntimeError', 'body']],
     'raise1': [['D', 1], ['RAISE', 'IndexError', 'body']],
     'priv1': [['D', 1], ['RAISE', 'KeyboardInterrupt', 'body']],
+    'awaitf1': [['D', 1], ['INSTANT'], ['AWAIT', 'c1_victf'], ['D', 1]],
 }
 KINDS = {'scope': None, 'until1': ['DELAY', 1], 'until2': ['DELAY', 2], 'untilf': ['F', 'stop'],
          'untilpast': ['EQ', -1], 'untilnow': ['GE', 0]}
@@ -87,11 +90,11 @@ def rename(script, i):
 def cases(tier):
     thorough = tier == 'thorough'
     out = []
-    singles = [k for k in CHILD if k not in ('vict', 'killer', 'awaitv', 'victf', 'awaitf')]
+    singles = [k for k in CHILD if k not in ('vict', 'killer', 'awaitv', 'victf', 'awaitf', 'awaitf1')]
     pairs_a = ['d1', 'd2', 'f0', 'f1', 'f1b', 'f2', 'priv1', 'nest_fail', 'nest_slow', 'late1', 'waiter', 'finspawn', 'tick',
                'after2', 'at2', 'finraise']
     tri = ['d2', 'f1', 'f1b', 'nest_fail', 'waiter', 'tick'] if thorough else ['d2', 'f1', 'f1b', 'tick']
-    bodies = list(BODIES)
+    bodies = [b for b in BODIES if b != 'awaitf1']
     kinds = list(KINDS)
     def vols(ck):
         return (False, True) if ck in VOLATILE else (False,)
@@ -125,6 +128,10 @@ def cases(tier):
             for extra in ([], ['awaitf'], ['d2'], ['tick']):
                 kids = [('victf', False), ('awaitf', False)] + [(e, e == 'tick') for e in extra]
                 out.append(program(kind, kids, body))
+                kids = [('victf', False), ('awaitf1', False)] + [(e, e == 'tick') for e in extra]
+                out.append(program(kind, kids, body))
+        for extra in ([], ['awaitf1'], ['d2']):
+            out.append(program(kind, [('victf', False)] + [(e, False) for e in extra], 'awaitf1'))
     # privileged failures of a subclass type next to ordinary failures and to each other
     for kind in ('scope', 'until2'):
         for body in ('none', 'd2', 'raise1'):
